@@ -249,7 +249,16 @@ impl McnkChunk {
         // TODO: Add split file support with chunk discovery
         let materials = None;
 
-        let refs = if header.has_refs() {
+        // `ofs_refs` points at MCRF in monolithic files and at MCRD (optionally followed by
+        // MCRW) in Cataclysm+ split files: the magic found there says which one it is.
+        // Reading the same bytes as all three would triple them on the next write.
+        let refs_magic = if header.has_refs() {
+            peek_subchunk_id(reader, mcnk_start_offset, header.ofs_refs)?
+        } else {
+            None
+        };
+
+        let refs = if refs_magic == Some(ChunkId::MCRF) {
             let data = read_subchunk(reader, mcnk_start_offset, header.ofs_refs, "MCRF")?;
             if !data.is_empty() {
                 Some(McrfChunk::read_le(&mut std::io::Cursor::new(data))?)
@@ -260,10 +269,19 @@ impl McnkChunk {
             None
         };
 
-        // MCRD shares ofs_refs with MCRF (Cataclysm+ split files)
-        // TODO: Add version/file-type detection to distinguish MCRF vs MCRD
-        let doodad_refs = if header.has_refs() {
-            let data = read_subchunk(reader, mcnk_start_offset, header.ofs_refs, "MCRF")?;
+        let mut wmo_refs_offset = if refs_magic == Some(ChunkId::MCRW) {
+            header.ofs_refs
+        } else {
+            0
+        };
+
+        let doodad_refs = if refs_magic == Some(ChunkId::MCRD) {
+            let data = read_subchunk(reader, mcnk_start_offset, header.ofs_refs, "MCRD")?;
+            // MCRW, when present, directly follows MCRD
+            let next = header.ofs_refs.saturating_add(8 + data.len() as u32);
+            if peek_subchunk_id(reader, mcnk_start_offset, next)? == Some(ChunkId::MCRW) {
+                wmo_refs_offset = next;
+            }
             if !data.is_empty() {
                 Some(McrdChunk::read_le(&mut std::io::Cursor::new(data))?)
             } else {
@@ -273,10 +291,8 @@ impl McnkChunk {
             None
         };
 
-        // MCRW shares ofs_refs with MCRF (Cataclysm+ split files)
-        // TODO: Add version/file-type detection to distinguish MCRF vs MCRD/MCRW
-        let wmo_refs = if header.has_refs() {
-            let data = read_subchunk(reader, mcnk_start_offset, header.ofs_refs, "MCRF")?;
+        let wmo_refs = if wmo_refs_offset != 0 {
+            let data = read_subchunk(reader, mcnk_start_offset, wmo_refs_offset, "MCRW")?;
             if !data.is_empty() {
                 Some(McrwChunk::read_le(&mut std::io::Cursor::new(data))?)
             } else {
@@ -511,6 +527,22 @@ fn read_subchunk<R: Read + Seek>(
     reader.read_exact(&mut data)?;
 
     Ok(data)
+}
+
+/// Magic of the subchunk at `offset` (relative to the MCNK chunk start), `None` if there is none to read.
+fn peek_subchunk_id<R: Read + Seek>(
+    reader: &mut R,
+    mcnk_start_offset: u64,
+    offset: u32,
+) -> BinResult<Option<ChunkId>> {
+    if offset == 0 {
+        return Ok(None);
+    }
+    reader.seek(SeekFrom::Start(mcnk_start_offset + u64::from(offset)))?;
+    match ChunkHeader::read_le(reader) {
+        Ok(header) => Ok(Some(header.id)),
+        Err(_) => Ok(None),
+    }
 }
 
 /// Read a subchunk with a known expected size.
